@@ -57,7 +57,7 @@ def referenced(e, acc=None):
         for _, v in e.get("extra", []):
             referenced(v, acc)
     elif t == "coll":
-        for _, v in e["items"]:
+        for _, v in MG.resolve_copies(e)["items"]:
             referenced(v, acc)
     return sorted(acc)
 
@@ -71,6 +71,8 @@ def model_sites(e, path=()):
             if kind == "class":
                 out += model_sites(e["kw"][arg], path + (arg,))
     elif e["t"] == "coll":
+        if any(sub["t"] == "copy" for _, sub in e["items"]):
+            return out          # no edits inside collections holding copies (keeps the edit semantics simple)
         for k, sub in e["items"]:
             out += model_sites(sub, path + (k,))
     return out
@@ -170,7 +172,7 @@ def expected_instance(e, vec):
         fields += [[k, expected_instance(sub, vec)] for k, sub in e.get("extra", [])]
         return {"t": "obj", "cls": e["cls"], "fields": fields}
     if t == "coll":
-        return {"t": "coll", "fields": [[k, expected_instance(sub, vec)] for k, sub in e["items"]]}
+        return {"t": "coll", "fields": [[k, expected_instance(sub, vec)] for k, sub in MG.resolve_copies(e)["items"]]}
     raise ValueError(t)
 
 
@@ -224,7 +226,7 @@ def has_division_by_zero(e, vec):
     if t == "model":
         return any(has_division_by_zero(v, vec) for v in e["kw"].values()) or any(has_division_by_zero(v, vec) for _, v in e.get("extra", []))
     if t == "coll":
-        return any(has_division_by_zero(v, vec) for _, v in e["items"])
+        return any(has_division_by_zero(v, vec) for _, v in MG.resolve_copies(e)["items"])
     return False
 
 
